@@ -44,6 +44,8 @@ def execute(sim, prop: str, seed: int, spec_seed: int, cfg: dict, replay: Option
     """Run the simulator once; never raises."""
     ch = Choices(seed, spec_seed, replay)
     run = Run(ch, cfg, prop)
+    boot.reset_serials(int(cfg.get("hash_perm", 0)))
+    boot.reset_process_globals()
     status = "ok"
     err = None
     cap = float(cfg.get("run_wall_cap", 20.0))
@@ -191,6 +193,7 @@ def _worker_main(widx: int, conn, sim_name: str, prop: str, cfg: dict, stop_flag
         signal.signal(signal.SIGINT, signal.SIG_IGN)
         sim = load_sim(sim_name)
         hard = float(cfg.get("run_wall_cap", 20.0)) * 3 + 30
+        poisoned: set = set()
         while True:
             task = conn.recv()
             if task is None:
@@ -201,9 +204,16 @@ def _worker_main(widx: int, conn, sim_name: str, prop: str, cfg: dict, stop_flag
                 _, seed, spec_seed, replay, extra = task
                 c = dict(cfg)
                 c.update(extra or {})
+                if spec_seed in poisoned and replay is None:
+                    # an earlier run on this generated spec hit the wall-clock cap: do not burn
+                    # the budget on its siblings (reported as dropped, not as executed)
+                    conn.send(("result", task[1], {"seed": seed, "spec_seed": spec_seed, "status": "skipped", "error": "spec-poisoned-by-earlier-timeout", "digest": "", "violations": [], "faults": {}, "probes": {}, "states": [], "nontrivial": False, "ops": [], "vtime": 0, "steps": 0, "info": {}, "trace": {}, "n_draws": 0, "wall": 0, "events": None}))
+                    continue
                 faulthandler.dump_traceback_later(hard, exit=True, file=sys.__stderr__)
                 res = execute(sim, prop, seed, spec_seed, c, replay)
                 faulthandler.cancel_dump_traceback_later()
+                if res["status"] == "inconclusive" and res["error"] == "wall-timeout" and replay is None:
+                    poisoned.add(spec_seed)
                 conn.send(("result", task[1], res))
             elif kind == "shrink":
                 _, seed, spec_seed, trace, signature, budget = task
@@ -577,6 +587,7 @@ def run_check(prop: str, sim_name: str, tier: str, cfg: dict, meta: dict) -> int
             "simulator": sim_name,
             "runs_requested": n_runs,
             "runs_dropped_by_wall_budget": dropped,
+            "runs_skipped_spec_poisoned": statuses.get("skipped", 0),
             "runs_per_hour": int(n_exec / max(main_wall, 1e-6) * 3600),
             "seeds": {"first": seeds[0], "last_executed": max([r["seed"] for r in executed], default=None), "formula": "VERIF_SEED*1000003+i"},
             "virtual_time_s": round(vtime, 3),
@@ -630,6 +641,8 @@ def replay_file(path: str) -> int:
     print("replay %s: status=%s digest=%s expected=%s" % (path, r["status"], r["digest"][:16], doc.get("expected_digest", "")[:16]))
     for o in r["ops"]:
         print("  op: " + o)
+    if r["info"].get("raised_traceback"):
+        print(r["info"]["raised_traceback"])
     if hit:
         print("REPRODUCED property=%s signature=%s" % (doc["property"], doc["signature"]))
         print("  " + hit[0]["detail"][:1500])
